@@ -42,7 +42,7 @@ def registry_files():
 TOK = re.compile(r'''
     (?P<ws>\s+)
   | (?P<str>"(?:[^"\\]|\\.)*")
-  | (?P<num>0x[0-9a-fA-F_]+(?:u8|u16|u32|u64|u128|usize|i32|i64)?|[0-9][0-9_]*(?:u8|u16|u32|u64|u128|usize|i32|i64)?)
+  | (?P<num>0x[0-9a-fA-F_]+(?:u8|u16|u32|u64|u128|usize|i32|i64)?|0b[01_]+(?:u8|u16|u32|u64|u128|usize|i32|i64)?|[0-9][0-9_]*(?:u8|u16|u32|u64|u128|usize|i32|i64)?)
   | (?P<life>'[a-zA-Z_][a-zA-Z0-9_]*(?!'))
   | (?P<id>[A-Za-z_][A-Za-z0-9_]*!?)
   | (?P<op>::|->|=>|==|!=|<=|>=|&&|\|\||<<|>>|\+=|-=|\*=|/=|[-+*/%^!&|=<>@.,;:#?$~(){}\[\]])
